@@ -735,8 +735,9 @@ func linBuild(base *Sym, off int64, t types.Type) *Sym {
 	return &Sym{Op: "binop", Tok: tok, Args: []*Sym{base, symConst(constant.MakeInt64(off), t)}, Type: t}
 }
 
-func isFloat2(t types.Type) bool  { return t != nil && isFloat(t) }
-func isString2(t types.Type) bool { return t != nil && isString(t) }
+func isFloat2(t types.Type) bool   { return t != nil && isFloat(t) }
+func isString2(t types.Type) bool  { return t != nil && isString(t) }
+func isInteger2(t types.Type) bool { return t != nil && isInteger(t) }
 
 func (e *e6Interp) rankOf(s *Sym) (int, bool) {
 	if s.isConst() && s.Const != nil && s.Const.Kind() == constant.String && constant.StringVal(s.Const) == "" {
